@@ -12,8 +12,7 @@ THEOREMS = [
     "Pypika.C03.lex_literal",
     "Pypika.C03.str_piece_roundtrip",
     "Pypika.C03.val_one_piece",
-,
-            "Pypika.WholeStr.str_uniform_all", "Pypika.WholeStr.str_quote_uniform", "Pypika.WholeStr.str_quote_uniform_query",
+    "Pypika.WholeStr.str_uniform_all", "Pypika.WholeStr.str_quote_uniform", "Pypika.WholeStr.str_quote_uniform_query",
             "Pypika.WholeStr.toplevel_sq"]
 AGREE = ["Pypika.Agree.secondary_quote", "Pypika.Agree.class_quotes"]
 TRUSTED = [
